@@ -585,6 +585,17 @@ impl<'p> Interp<'p> {
 		}
 	}
 
+	pub fn neg_zero(&mut self) -> V {
+		match self.mode {
+			Mode::Concrete => V::F(Fl::C(-0.0)),
+			Mode::Fp => {
+				let r = self.tm.real_i(0);
+				let z = self.tm.bool_(true);
+				V::F(Fl::S { r, z })
+			}
+			Mode::Real => V::F(self.fl_from_i(0)),
+		}
+	}
 	pub fn axiom(&mut self, t: crate::term::T) -> R<()> {
 		if self.tm.as_bool(t) == Some(true) {
 			return Ok(());
@@ -1450,14 +1461,15 @@ impl<'p> Interp<'p> {
 									Ok(z)
 								}
 							}
-							None => Ok(V::F(self.fl_from_i(if name == "sum" { 0 } else { 1 }))),
+							None => Ok(if name == "sum" { self.neg_zero() } else { V::F(self.fl_from_i(1)) }),
 						}
 					}
 				};
 				// std sums start from the additive identity: 0 + x0 + x1 ...
 				let mut acc = match &first {
 					V::F(_) => {
-						let z = V::F(self.fl_from_i(if name == "sum" { 0 } else { 1 }));
+						// std: the float additive identity used by Sum is -0.0 (so that summing [-0.0] gives -0.0)
+						let z = if name == "sum" { self.neg_zero() } else { V::F(self.fl_from_i(1)) };
 						self.arith(if name == "sum" { "+" } else { "*" }, z, first)?
 					}
 					_ => first,
